@@ -53,7 +53,7 @@ Proof. cbn zeta. split; vm_compute; reflexivity. Qed.
 (* a valid exception frame is a device exception ... *)
 Example C12_valid_exception :
   let q := rq true (RRead 3 1 0 10) in
-  fst (client_do (cfg_of KRtuNet) (plain (script_of [(0%nat, with_crc [1; 0x83; 2])])) (Some q))
+  fst (client_do (cfg_of KRtuNet) (plain (script_of [(0%nat, true, with_crc [1; 0x83; 2])])) (Some q))
   = OFail (CExc (ERespRTU 1 3 2)).
 Proof. vm_compute. reflexivity. Qed.
 (* ... the same five bytes with a wrong trailer are not (the defect D8 of the tree as given,
@@ -61,16 +61,16 @@ Proof. vm_compute. reflexivity. Qed.
    not a device exception *)
 Example C12_short_exception_with_bad_crc :
   let q := rq true (RRead 3 1 0 10) in
-  fst (client_do (cfg_of KRtuNet) (plain [deliver [1; 0x83; 2; 0xDE; 0xAD]; quiet; timer_step false RTimeout]) (Some q))
+  fst (client_do (cfg_of KRtuNet) (plain [deliver false [1; 0x83; 2; 0xDE; 0xAD]; quiet; timer_step false (RTimeout [])]) (Some q))
   = OFail CTimeout /\
-  fst (client_do (cfg_of KRtuNet) (plain [deliver [1; 0x83; 2; 0xDE; 0xAD];
-                                           {| s_ctx := false; s_timer := false; s_pick := false; s_rd := REof [] |}]) (Some q))
+  fst (client_do (cfg_of KRtuNet) (plain [deliver false [1; 0x83; 2; 0xDE; 0xAD];
+                                           {| s_ctx := false; s_deadline := false; s_timer := false; s_pick := false; s_rd := REof [] |}]) (Some q))
   = OFail (CParse EInvalidCRC).
 Proof. cbn zeta. split; vm_compute; reflexivity. Qed.
 (* one flipped bit in the data of a reply *)
 Example C12_flipped_bit :
   let q := rq true (RRead 3 1 0 1) in
-  fst (client_do (cfg_of KSerial) (plain (script_of [(0%nat, [1; 3; 2; 0x12; 0x35; 0xB5; 0x33])])) (Some q))
+  fst (client_do (cfg_of KSerial) (plain (script_of [(0%nat, false, [1; 3; 2; 0x12; 0x35; 0xB5; 0x33])])) (Some q))
   = OFail (CParse EInvalidCRC) /\
   with_crc [1; 3; 2; 0x12; 0x34] = [1; 3; 2; 0x12; 0x34; 0xB5; 0x33].
 Proof. cbn zeta. split; vm_compute; reflexivity. Qed.
